@@ -129,7 +129,7 @@ def run(ctx):
     vectors = []
     for chunked in (False, True):
         depth = (4 if not chunked else 3) if quick else (5 if not chunked else 4)
-        sels = SELS if (not chunked or not quick) else ["tail", "mask", "list", "rev"]
+        sels = SELS if (not chunked or not quick) else ["tail", "mask", "lmask", "list", "rev"]
         res = ctx.tlc("MC_C05", tag="MC_C04_%s" % ("chunked" if chunked else "whole"), spec="Spec",
                       constants=dict(consts, MaxDepth=depth, Chunked=chunked, Sels=sels), invariants=invs, properties=["Frame"],
                       coverage=True)
@@ -146,7 +146,7 @@ def run(ctx):
     # long histories on few tables (TLC simulation mode, seeded): a selection that is written modified, then unmodified, then modified
     # again, and the like - depths the exhaustive runs cannot reach
     sim = ctx.tlc("MC_C05", tag="MC_C04_sim", spec="Spec", workers=1, simulate="num=%d" % (300 if quick else 3000), depth=9, seed=ctx.seed + 17,
-                  constants=dict(consts, MaxDepth=9, MaxPool=5, Chunked=False, Sels=["tail", "list"], Ops=["write", "replace", "index"]),
+                  constants=dict(consts, MaxDepth=9, MaxPool=5, Chunked=False, Sels=["tail", "list", "lmask"], Ops=["write", "replace", "index"]),
                   invariants=invs, properties=["Frame"])
     seen = set()
     for v in sim.vectors:
